@@ -255,6 +255,21 @@ def run(ctx):
             out = os.path.join(sc, "c05_%d_%s.out" % (i, fmt))
             jobs.append(dict(i=i, args=["-i", inp, "-o", out, "-f", fmt, "-n", "4"], tag="line-table-%dx%d" % (nrec, L), otag="plain", fmt=fmt, out=out, inp=inp))
 
+    # two sequences whose lengths ADD UP to the sizes the alignment-path buffer is grown to (256 * 1.5^k: 256, 384, 576, 864, 1296) and their
+    # neighbours: the path of a merge has up to len_a + len_b columns plus its length field and its terminator
+    sums = [255, 256, 383, 384, 575, 576, 863, 864] if ctx.quick else [254, 255, 256, 257, 382, 383, 384, 385, 574, 575, 576, 577, 862, 863, 864, 865, 1294, 1295, 1296, 1943, 1944]
+    for k, tot in enumerate(sums):
+        i = N + 400 + k
+        kind = rng.choice(["dna", "protein"])
+        alpha_ = gen.DNA if kind == "dna" else gen.AA
+        la = rng.randint(max(1, tot // 4), tot - max(1, tot // 4))
+        a_ = gen.rand_seq(rng, alpha_, la)
+        b_ = gen.rand_seq(rng, alpha_, tot - la) if rng.random() < 0.5 else gen.mutate(rng, a_, alpha_, 0.2, 0.0)[:tot - la].ljust(tot - la, alpha_[0])
+        inp = os.path.join(sc, "c05_%d.in" % i)
+        open(inp, "w").write(gen.fasta_text([("p", a_), ("q", b_)]))
+        out = os.path.join(sc, "c05_%d.out" % i)
+        jobs.append(dict(i=i, args=["-i", inp, "-o", out, "-f", "fasta", "-n", str(rng.choice([1, 4]))], tag="path-capacity-%d" % tot, otag="plain", fmt="fasta", out=out, inp=inp))
+
     def one(j):
         env = dict(C.SAN_ENV_LEAK, LSAN_OPTIONS=C.SAN_ENV_LEAK["LSAN_OPTIONS"] + ":exitcode=0")
         p = C.sh([cli] + j["args"] + ["-q"], timeout=20, env=env)
